@@ -79,6 +79,28 @@ struct Crash : Profile {
         int maxlen = r.chance(0.3) ? 600 : 60;
         for (int i = 0; i < na; i++)
             p.ops.push_back(MixedGen::write_op(r, (int)r.below(5), false, maxlen));
+        if (r.chance(0.35)) {
+            // leave a descriptor block (or a hole) as the last thing in the base file: create H elements last,
+            // then delete them again
+            int nt = (int)r.range(1, 4);
+            std::vector<Op> made;
+            for (int i = 0; i < nt; i++) {
+                Op o = mkop(0, "hput", {0, (int64_t)r.below(3), (int64_t)r.below(8), 1 + r.sizeish(maxlen), (int64_t)(r.next() >> 16)});
+                made.push_back(o);
+                p.ops.push_back(o);
+            }
+            for (auto &o : made)
+                p.ops.push_back(mkop(0, "hdel", {0, o.arg(1), o.arg(2)}));
+        }
+        if (r.chance(0.35)) {
+            // end the base with descriptors that bring no data of their own (aliases): with a small ndds the newest
+            // descriptor block is then the last thing in the file
+            Op src = mkop(0, "hput", {0, (int64_t)r.below(3), (int64_t)r.below(8), 1 + r.sizeish(maxlen), (int64_t)(r.next() >> 16)});
+            p.ops.push_back(src);
+            int nd = (int)r.range(1, 7);
+            for (int i = 0; i < nd; i++)
+                p.ops.push_back(mkop(0, "hdup", {src.arg(1), src.arg(2), (int64_t)r.below(3), (int64_t)r.below(8)}));
+        }
         p.ops.push_back(mkop(0, "end", {}));
         p.ops.push_back(mkop(0, "mark", {}));
         for (int i = 0; i < nb; i++) {
@@ -104,7 +126,7 @@ struct Crash : Profile {
 
     // End of the last stored object or descriptor block, from the descriptor chain alone (the physical file may
     // be a byte longer: the library pads the end of file when it closes).
-    static int64_t logical_end(const std::vector<uint8_t> &f)
+    static int64_t logical_end(const std::vector<uint8_t> &f, std::vector<std::pair<int64_t, int64_t>> *ddblocks = nullptr)
     {
         auto be16 = [&](size_t o) { return (int64_t)((f[o] << 8) | f[o + 1]); };
         auto be32 = [&](size_t o) { return (int64_t)(int32_t)(((uint32_t)f[o] << 24) | ((uint32_t)f[o + 1] << 16) | ((uint32_t)f[o + 2] << 8) | f[o + 3]); };
@@ -117,6 +139,8 @@ struct Crash : Profile {
             if (ndds <= 0)
                 break;
             end = std::max(end, bend);
+            if (ddblocks)
+                ddblocks->push_back({(int64_t)blk, bend});
             for (int64_t i = 0; i < ndds && blk + 6 + (size_t)(i + 1) * 12 <= f.size(); i++) {
                 size_t  d   = blk + 6 + (size_t)i * 12;
                 int64_t tag = be16(d), off = be32(d + 4), len = be32(d + 8);
@@ -140,13 +164,14 @@ struct Crash : Profile {
             std::string d0;
             int64_t     l0 = 0;
             int         first_flush = -1;
+            std::vector<std::pair<int64_t, int64_t>> ddblocks;
             for (size_t i = 0; i < verify && i < p.ops.size(); i++) {
                 ctx.begin_op((int)i);
                 const Op &o = p.ops[i];
                 if (o.kind == "mark") {
                     mx.add_only = true;
                     d0      = simfs::disk_serialize(simfs::disk());
-                    l0      = logical_end(simfs::file_bytes(simfs::disk(), mx.path));
+                    l0      = logical_end(simfs::file_bytes(simfs::disk(), mx.path), &ddblocks);
                     simfs::keep_writelog(true);
                     simfs::clear_writelog();
                     continue;
@@ -166,17 +191,23 @@ struct Crash : Profile {
             if (l0 == 0)
                 return; // phase A stored nothing: trivial case
             // clause 1: before the first flushing call the session writes only beyond the old end of file
+            // "Until it flushes": the descriptor flush is the first write that lands in a descriptor block the
+            // file already had (or an explicit Hsync).  Everything before it, including what SDend/GRend/ANend/Vend
+            // write on their way to the flush, must go to new space.
             const auto &w = simfs::writelog();
             uint64_t    pre = 0;
             for (auto &rec : w) {
-                if (first_flush >= 0 && rec.op >= first_flush)
+                bool in_dd = false;
+                for (auto &b : ddblocks)
+                    in_dd |= rec.kind == 0 && rec.off >= b.first && rec.off < b.second;
+                if (in_dd || (first_flush >= 0 && rec.op >= first_flush && p.ops[(size_t)first_flush].kind == "sync"))
                     break;
                 pre++;
                 ctx.st.checks++;
                 if (rec.kind != 0 || rec.off < l0)
                     ctx.fail("write-into-old-space", "write-into-old-space",
-                             strf("op %d (%s) wrote %zu bytes at offset %lld before any flushing call; the file was %lld "
-                                  "bytes long when the session began",
+                             strf("op %d (%s) wrote %zu bytes at offset %lld before the descriptor flush; the stored objects "
+                                  "and descriptor blocks of the file ended at %lld when the session began",
                                   rec.op, p.ops[(size_t)rec.op].kind.c_str(), rec.data.size(), (long long)rec.off,
                                   (long long)l0));
             }
